@@ -2,7 +2,7 @@
    whatever the variables, the balances, the metadata and the store's answers. *)
 From Coq Require Import Lia ZifyBool.
 From NS Require Import Run SyntaxInd.
-From NS Require Tables TablesOk.
+From NS Require Tables TablesOk ErrList.
 
 Definition np {A} (m : res A) : Prop := forall w, m <> Panic w.
 
@@ -449,5 +449,5 @@ Qed.
 (* every error value of the model is one of the typed errors of interpreter_error.go *)
 Lemma errors_are_typed (e : err) : In (err_name e) Tables.runtime_errors.
 Proof.
-  destruct TablesOk.tables_ok_core as [_ [H _]]. rewrite H. apply TablesOk.all_errs_exhaustive.
+  destruct TablesOk.tables_ok_core as [_ [H _]]. rewrite H. apply ErrList.all_errs_exhaustive.
 Qed.
